@@ -161,6 +161,8 @@ func cmdCheck(prop, tier string) int {
 	discharged := 0
 	machineryErr := false
 	nBounded := 0
+	nSoft := 0
+	var softUndecided []string
 	for _, o := range obls {
 		if o.Bounded {
 			nBounded++
@@ -183,6 +185,11 @@ func cmdCheck(prop, tier string) int {
 				discharged++
 			}
 			byBackend[o.Res.Backend]++
+			continue
+		}
+		if o.Soft && o.Res != nil && o.Res.Status != "sat" {
+			softUndecided = append(softUndecided, o.Name+": "+o.Res.Status)
+			nSoft++
 			continue
 		}
 		matched := false
@@ -296,7 +303,8 @@ func cmdCheck(prop, tier string) int {
 	ev := &Evidence{PropertyID: prop, Tier: tier, Seed: seed(), Level: "proof", WallS: time.Since(t0).Seconds(), Violations: nviol,
 		Assumptions: append(trusted, lemAssume...),
 		Coverage: map[string]interface{}{
-			"obligations":              len(obls) - nBounded - nKnown,
+			"obligations":              len(obls) - nBounded - nKnown - nSoft,
+			"thorough_extra_undecided":  softUndecided,
 			"known_finding_obligations": nKnown,
 			"bounded_checks":           nBounded,
 			"discharged":               discharged,
@@ -318,7 +326,7 @@ func cmdCheck(prop, tier string) int {
 		}}
 	writeEvidence(prop, ev)
 	fmt.Printf("%s: %d obligations, %d discharged, %d known-finding, %d violations, %d functions, %d instantiations, %.1fs wall, %.1fs solver\n",
-		prop, len(obls)-nBounded-nKnown, discharged, nKnown, nviol, len(funcs), insts, time.Since(t0).Seconds(), solverTime)
+		prop, len(obls)-nBounded-nKnown-nSoft, discharged, nKnown, nviol, len(funcs), insts, time.Since(t0).Seconds(), solverTime)
 	if machineryErr || (len(s.errs) > 0 && nviol == 0) {
 		if len(s.errs) > 0 {
 			// a generator error on code we cannot model: report as violation without input
